@@ -7,13 +7,13 @@ LEVEL = "proof"
 # harness.cpp is compiled in 8 parts, 4 at a time (props/C07/pcxx.py): ~25 s instead of ~55 s after a change of /repo/include
 HARNESSES = [{"name": "main", "src": "harness.cpp",
               "compiler": os.path.join(os.path.dirname(os.path.abspath(__file__)), "pcxx.py"),
-              "flags": ["-std=c++2b", "-O1", "-fno-lifetime-dse", "-DTETL_ENABLE_CONTRACT_CHECKS=1", "-DC07_NPARTS=8"]},
+              "flags": ["-std=c++2b", "-O1", "-fno-lifetime-dse", "-DTETL_ENABLE_CONTRACT_CHECKS=1", "-DC07_NPARTS=10"]},
              # ASan+UBSan build of the same harness (thorough tier; also picked up by C02's aggregated sanitizer run).
              # -O0: the instrumented -O1 build costs ~6 CPU-minutes, -O0 ~2.5
              {"name": "asan", "src": "harness.cpp", "thorough_only": True,
               "compiler": os.path.join(os.path.dirname(os.path.abspath(__file__)), "pcxx.py"),
               "flags": ["-std=c++2b", "-O0", "-fno-lifetime-dse", "-fsanitize=address,undefined",
-                        "-fno-sanitize-recover=all", "-DTETL_ENABLE_CONTRACT_CHECKS=1", "-DC07_NPARTS=8"]}]
+                        "-fno-sanitize-recover=all", "-DTETL_ENABLE_CONTRACT_CHECKS=1", "-DC07_NPARTS=10"]}]
 
 RULE = ("a case is a whole operation history on two objects a,b (plus an optional<U>/unexpected<E2> c); exhaustive: "
         "every history of depth <= 2 over the FULL op alphabet (all alternatives x 3 values x emplace/in_place by index "
@@ -45,7 +45,19 @@ SETS = {
     "G": [5, 4],
     "H": [0, 11],
     "I": [11, 7, 0],
+    # repeated alternative types: only the index-based API is well-formed; copy/move assignment must decide
+    # "same alternative" by INDEX, not by type (a holds <0>, b holds <2> of the same type: destroy + construct)
+    "R": [7, 7],
+    "Q": [7, 3, 7],
+    # a floating alternative that also takes a NaN (encoded NANV = 1000): unordered, so the six relational
+    # operators are independent of each other (>= is not "not <")
+    "J": [3, 6],
+    # <int, TrivDef>: a class with a TRIVIAL default constructor and user-provided copy / move (id 8: modelled like
+    # Tracked2).  No converting operations from class sources (TrivDef is constructible from int only)
+    "P": [3, 8],
 }
+NANV = 1000
+NAN_SETS = ("J",)
 
 SRC_IDS = [0, 1, 2, 3, 4, 5, 6, 7, 8, 10, 11]
 
@@ -66,15 +78,17 @@ def line(op, steps):
     return f"{op} {len(steps)} " + " ".join(steps)
 
 
-def var_full(alts):
+def var_full(alts, nan=False):
     out = []
     for t in (0, 1):
         for i, ty in enumerate(alts):
-            for v in sorted(set(dom(ty))):
-                for opc in "ETIYL":
+            for v in sorted(set(dom(ty))) + ([NANV] if nan and ty in (5, 6) else []):
+                for opc in ("ETIYL" if alts.count(ty) == 1 else "EI"):
                     out.append(step(opc, t, i, v))
-        for s in SRC_IDS:
-            for v in sorted(set(dom(s)))[:2]:
+        for s in (SRC_IDS if alts != SETS["P"] else [x for x in SRC_IDS if x not in (7, 8)]):
+            # a NaN source only where no floating -> integer conversion can follow (undefined): the floating sources
+            # of a set whose class alternatives are not reachable from a floating value
+            for v in sorted(set(dom(s)))[:2] + ([NANV] if nan and s in (5, 6) else []):
                 out.append(step("V", t, s, v))
                 out.append(step("W", t, s, v))
         for opc in "CMKJFGAD":
@@ -83,24 +97,25 @@ def var_full(alts):
     return out
 
 
-def var_core(alts):
+def var_core(alts, nan=False):
     out = []
     for t in (0, 1):
         for i, ty in enumerate(alts):
-            for v in sorted(set(dom(ty)))[:2]:
+            for v in sorted(set(dom(ty)))[:2] + ([NANV] if nan and ty in (5, 6) else []):
                 out.append(step("E", t, i, v))
-        out.append(step("V", t, alts[-1], dom(alts[-1])[2]))
+        # (set P: TrivDef is not a source type - it shares its id with Tracked2 -, use a short)
+        out.append(step("V", t, alts[-1], dom(alts[-1])[2]) if alts != SETS["P"] else step("V", t, 2, 3))
         for opc in "CMA":
             out.append(step(opc, t))
     out.append(step("S"))
     return out
 
 
-def var_pairs(alts):
+def var_pairs(alts, nan=False):
     """every (state a, state b) pair (a moved-from class value is the payload 99) x every two-object / self / alias op"""
     states = []
     for i, ty in enumerate(alts):
-        for v in sorted(set(dom(ty))) + ([99] if ty in (7, 8) else []):
+        for v in sorted(set(dom(ty))) + ([99] if ty in (7, 8) else []) + ([NANV] if nan and ty in (5, 6) else []):
             states.append((i, v))
     out = []
     ops = [step(o, t) for o in "CMKJFGA" for t in (0, 1)] + [step("S")]
@@ -113,20 +128,21 @@ def var_pairs(alts):
     return out
 
 
-OPT_CFG = {"opt.is": (3, 2), "opt.ti": (7, 3), "opt.t2": (8, 7), "opt.ib": (3, 0)}
+OPT_CFG = {"opt.is": (3, 2), "opt.ti": (7, 3), "opt.t2": (8, 7), "opt.ib": (3, 0), "opt.df": (6, 5)}
 
 
 def opt_full(T, U):
     out = []
+    fp = T in (5, 6) and U in (5, 6)
     for t in (0, 1):
-        for v in (1, 2, 3):
+        for v in (1, 2, 3) + ((NANV,) if fp else ()):
             for opc in "eauwijJ":
                 out.append(step(opc, t, v))
         for opc in "pPq":
             out.append(step(opc, t, 2))
         for opc in "nbrcmklfghxyXYdD" + ("v" if T == 7 else ""):
             out.append(step(opc, t))
-    for v in (1, 2, 3):
+    for v in (1, 2, 3) + ((NANV,) if fp else ()):
         out.append(step("E", 0, v))
     out += [step("R"), step("s"), step("S")]
     return out
@@ -134,17 +150,18 @@ def opt_full(T, U):
 
 def opt_core(T, U):
     out = []
+    fp = T in (5, 6) and U in (5, 6)
     for t in (0, 1):
-        for v in (1, 2):
+        for v in (1, 2) + ((NANV,) if fp else ()):
             out.append(step("e", t, v))
         out.append(step("a", t, 3))
         for opc in "ncmxy" + ("v" if T == 7 else ""):
             out.append(step(opc, t))
-    out += [step("E", 0, 2), step("R"), step("s")]
+    out += [step("E", 0, 2), step("R"), step("s")] + ([step("E", 0, NANV)] if fp else [])
     return out
 
 
-EXP_CFG = ["exp.il", "exp.tt", "exp.ti", "exp.ii"]
+EXP_CFG = ["exp.il", "exp.tt", "exp.ti", "exp.ii", "exp.rr"]
 
 
 def exp_full():
@@ -247,15 +264,15 @@ def cref_core():
     return out
 
 
-def unx_full():
+def unx_full(nan=False):
     out = []
     for t in (0, 1):
-        for v in (1, 2, 3):
+        for v in (1, 2, 3) + ((NANV,) if nan else ()):
             out.append(step("v", t, v))
             out.append(step("i", t, v))
         out.append(step("c", t))
         out.append(step("m", t))
-    for v in (1, 2):
+    for v in (1, 2) + ((NANV,) if nan else ()):
         out.append(step("E", 0, v))
     out += [step("s"), step("S")]
     return out
@@ -286,8 +303,9 @@ def gen(tier, rng):
     # ---------------- variant
     for name, alts in SETS.items():
         op = "var." + name
-        full = var_full(alts)
-        core = var_core(alts)
+        nan = name in NAN_SETS
+        full = var_full(alts, nan)
+        core = var_core(alts, nan)
         out.append(line(op, []))
         if not search:
             for s in full:
@@ -301,15 +319,15 @@ def gen(tier, rng):
                     for b in core:
                         out.append(line(op, [a, b]))
                         out.append(line(op, [b, a]))
-            for h in var_pairs(alts):
+            for h in var_pairs(alts, nan):
                 out.append(line(op, h))
-            if name in ("A", "B"):
+            if name in ("A", "B", "R"):
                 for h in exact(core, 3):
                     out.append(line(op, h))
-                if not quick:
+                if not quick and name != "R":
                     for h in exact(core, 4):
                         out.append(line(op, h))
-            elif name in ("C", "D") and not quick:
+            elif name in ("C", "D", "Q", "J", "P") and not quick:
                 for h in exact(core, 3):
                     out.append(line(op, h))
         for _ in range(nrand):
@@ -347,8 +365,8 @@ def gen(tier, rng):
         for _ in range(nrand):
             out.append(line(op, rand_hist(rng, full, 3, 10)))
     # ---------------- unexpected
-    for op in ("unx.il", "unx.tt"):
-        full = unx_full()
+    for op in ("unx.il", "unx.tt", "unx.df"):
+        full = unx_full(op == "unx.df")
         out.append(line(op, []))
         if not search:
             for h in histories(full, 2 if quick else 3):
